@@ -7,6 +7,21 @@ HERE = os.path.dirname(os.path.dirname(os.path.abspath(__file__)))
 
 # id -> (category, technique, text, note, design_ref)
 CHECKS = {
+    "C06": (
+        "model_checking",
+        "stateless model checking of the real multi-core runner under a virtual scheduler: delay-bounded (D(d)) and exact-state-matching (S) exploration of all pipe/queue interleavings",
+        "The unmodified cutadapt.runners (reader, N workers, collecting main process) and cli.main run on a virtual multiprocessing layer "
+        "(pipes, queue, connection.wait, start/join/terminate re-implemented over a one-thread-at-a-time baton scheduler). For 17 option "
+        "sets allowed with --cores (single/paired/interleaved, redirects, info/rest/wildcard files, {name} and {name1}/{name2} "
+        "demultiplexing, revcomp, gz and FASTA output, linked adapters, --pair-adapters ...) x 2-3 workers x 2-4 chunks x pipe capacity "
+        "{unbounded, 1 data chunk}: quick explores every schedule with <= 2 deviations from the default schedule (about 1.6e4 complete "
+        "executions), thorough adds D(3) and exact state matching without bound. Every execution is compared with the one-core run: all "
+        "output files after decompression byte-identical, JSON and text report identical, no deadlock, no horizon hit. The same command "
+        "lines are also run as real OS processes (conformance of the virtual layer).",
+        "Trusted: semantics of the virtual primitives (DESIGN 1.1), the commuting-receive reduction, spawn-style state copy; real "
+        "processes' private module state is not modelled. Bounds: <= 3 workers, <= 4 chunks, 9 reads.",
+        "DESIGN.md sections 1.1 and 3, C06",
+    ),
     "C01": (
         "exploration",
         "bounded exhaustive enumeration of (adapter type, adapter, configuration, read) on the real match_to, judged by a naive C reference aligner",
